@@ -244,7 +244,7 @@ fn gen_raw(r: &mut Rng, bad_pct: u32) -> String {
     let n = r.below(7);
     let mut s = String::new();
     for _ in 0..n {
-        if r.chance(bad_pct) { s.push_str(r.pick(RAW_BAD)); } else { s.push_str(r.pick(RAW_PIECES)); }
+        if r.chance(bad_pct) { s.push_str(*r.pick(RAW_BAD)); } else { s.push_str(*r.pick(RAW_PIECES)); }
     }
     s
 }
@@ -398,7 +398,8 @@ impl TG {
             10 | 11 => { let n = 2 + r.below(3); (self.chain(r, 5, d, n, &["+", "-"]), 4) }
             12 | 13 => { let n = 2 + r.below(2); (self.chain(r, 6, d, n, &["*"]), 5) }
             14 | 15 => {
-                let n = 1 + r.below(if r.chance(self.ill_pct) { 6 } else { 4 });
+                let lim = if r.chance(self.ill_pct) { 6 } else { 4 };
+                let n = 1 + r.below(lim);
                 let op = if r.chance(50) { "!" } else { "-" };
                 let sep = if r.chance(30) { " " } else { "" };
                 (format!("{}{}", vec![op; n].join(sep), self.gen(r, 7, d)), 6)
@@ -445,7 +446,7 @@ impl TG {
     fn chain(&self, r: &mut Rng, operand_lvl: u8, d: u32, n: usize, ops: &[&str]) -> String {
         let mut s = String::new();
         for i in 0..n {
-            if i > 0 { let sp = if r.chance(15) { "" } else { " " }; s.push_str(sp); s.push_str(r.pick(ops)); s.push_str(sp); }
+            if i > 0 { let sp = if r.chance(15) { "" } else { " " }; s.push_str(sp); s.push_str(*r.pick(ops)); s.push_str(sp); }
             // the first operand of a left-associative chain may be at the chain's own level
             let l = if i == 0 && r.chance(40) { operand_lvl - 1 } else { operand_lvl };
             s.push_str(&self.gen(r, l, d));
@@ -910,9 +911,14 @@ pub fn run(args: &Args, out: &mut Out) {
 
     // (x) extension function call styles
     {
-        let mut fs: Vec<String> = Extensions::all_available().all_funcs().map(|f| {
+        use cedar_policy_core::extensions as ext;
+        let exts = [ext::ipaddr::extension(), ext::decimal::extension(), ext::datetime::extension(), ext::partial_evaluation::extension()];
+        let mut fs: Vec<String> = exts.iter().flat_map(|e| e.funcs().map(|f| {
             format!("({} {})", match f.style() { ast::CallStyle::FunctionStyle => "fn", ast::CallStyle::MethodStyle => "meth" }, sx::qs(&f.name().to_string()))
-        }).collect();
+        }).collect::<Vec<_>>()).collect();
+        // no extension beyond the four enumerated ones may be active
+        let n_active = Extensions::all_available().ext_names().count();
+        if n_active != exts.len() { fs.push(format!("(unlisted-extensions {n_active})")); }
         fs.sort();
         out.line(format!("(ext-styles {})", fs.join(" ")), "(same)".into(), "extension call-style table".into());
     }
